@@ -846,10 +846,13 @@ def transcript_oracles(sc, obs):
             mine = [f for cid, f in frames if cid == o[1]]
             if any(f[0] == "EOSE" and f[1] == o[2] for f in mine):
                 open_subs.setdefault(o[1], set()).add(o[2])
-            elif any(f[0] == "NOTICE" for f in mine):
-                open_subs.setdefault(o[1], set()).discard(o[2])      # refused (or a failed replacement): not open
+            elif any(f[0] == "NOTICE" and not str(f[1]).startswith("rate-limited") for f in mine):
+                # refused (or a failed replacement): not open. A rate-limited REQ is not looked at at all: an earlier subscription
+                # with that id stays as it is.
+                open_subs.setdefault(o[1], set()).discard(o[2])
         if o[0] == "close" and ob.get("note") != "gone":
-            open_subs.setdefault(o[1], set()).discard(o[2])
+            if not any(cid == o[1] and f[0] == "NOTICE" and str(f[1]).startswith("rate-limited") for cid, f in frames):
+                open_subs.setdefault(o[1], set()).discard(o[2])          # (a rate-limited CLOSE is not carried out)
         if o[0] not in ("req",):
             for cid, f in frames:
                 if f[0] == "EVENT" and f[1] not in open_subs.get(cid, set()):
